@@ -1,3 +1,4 @@
+CONSTANT NRand = 50
 CONSTANT Big = FALSE
 INIT MCInit
 NEXT Step
